@@ -91,10 +91,12 @@ fn role(server: bool) -> PeerType { if server { PeerType::Server } else { PeerTy
 fn fail(msg: String) -> ! { println!("WITNESS {}", msg); std::process::exit(1) }
 
 // a packet 1 of a peer of the given role-scheme with the digest at exactly `target` (one of the 728 positions)
-fn craft_p1(rng: &mut Lcg, client_scheme: bool, target: usize, key: &[u8]) -> Vec<u8> {
+fn craft_p1(rng: &mut Lcg, client_scheme: bool, target: usize, key: &[u8]) -> Vec<u8> { craft_p1_sum(rng, client_scheme, target, key, 0) }
+// same, with the four selector bytes summing to (target - base) + 728 * wraps (wraps = 1 exercises the modulo: sums 728..=1020)
+fn craft_p1_sum(rng: &mut Lcg, client_scheme: bool, target: usize, key: &[u8], wraps: usize) -> Vec<u8> {
     let mut p = rng.bytes(1536);
     let (sel, base) = if client_scheme { (8, 12) } else { (772, 776) };
-    let mut rest = target - base; // 0..=727 == sum of the four selector bytes
+    let mut rest = target - base + 728 * wraps; // sum of the four selector bytes
     for i in 0..4 { let b = rest.min(255); p[sel + i] = b as u8; rest -= b; }
     let d = digest_of(&p, target, key);
     p[target..target + 32].copy_from_slice(&d);
@@ -123,9 +125,11 @@ fn c11(seed: u64) {
     for &server in &[false, true] {
         let peer_key = own_key(!server);
         for &client_scheme in &[true, false] {
-            for k in 0..728usize {
+            for kk in 0..(728usize + 293) {
+                // kk < 728: selector sum == offset index; kk >= 728: selector sums 728..=1020, which wrap to indexes 0..=292
+                let (k, wraps) = if kk < 728 { (kk, 0) } else { (kk - 728, 1) };
                 let target = k + if client_scheme { 12 } else { 776 };
-                let p1 = craft_p1(&mut rng, client_scheme, target, peer_key);
+                let p1 = craft_p1_sum(&mut rng, client_scheme, target, peer_key, wraps);
                 let mut input = vec![3u8];
                 input.extend_from_slice(&p1);
                 let mut h = Handshake::new(role(server));
@@ -154,9 +158,10 @@ fn c11(seed: u64) {
             }
         }
         // (3) digest-less packet 1: exact echo
-        for _ in 0..50 {
+        for round in 0..50 {
             let mut p1 = rng.bytes(1536);
-            for b in p1[4..8].iter_mut() { *b = 0; }
+            // original-handshake peers send zero here, but some (the crate's own comment names YouTube) send a version: both
+            if round % 2 == 0 { for b in p1[4..8].iter_mut() { *b = 0; } } else if p1[4..8] == [0, 0, 0, 0] { p1[7] = 1; }
             let mut input = vec![3u8];
             input.extend_from_slice(&p1);
             let mut h = Handshake::new(role(server));
